@@ -247,6 +247,43 @@ def run(tier, seed):
             stats["cross_store_chains"] = stats.get("cross_store_chains", 0) + (1 if len(set(cls)) > 1 else 0)
             if len(rep.samples) < 2:
                 rep.samples.append(dict(meta, provenance=provs))
+        # own keys win also when the own value is EQUAL for Python to the parent's but another value (1 / True / 1.0, the same
+        # string): the stored child reads back the child's values, type included
+        tchain = [[["a", {"k": "int", "v": 1}, 1], ["b", {"k": "int", "v": 2}, 2], ["c", {"k": "str", "v": "v3"}, 3], ["d", {"k": "float", "v": (1.0).hex()}, 1]],
+                  [["a", {"k": "bool", "v": True}, 1], ["b", {"k": "float", "v": (2.0).hex()}, 2], ["c", {"k": "str", "v": "v3"}, 3], ["d", {"k": "int", "v": 1}, 1]]]
+        want_typed = {"a": ("bool", True), "b": ("float", 2.0), "c": ("str", "v3"), "d": ("int", 1)}
+        for ti, (cache, prov) in enumerate([(False, "fresh"), (True, "fresh"), (True, "cache"), (False, "disk"), (True, "disk")]):
+            path = os.path.join(scratch, "ptyped%d" % ti)
+
+            def tbackend():
+                return FilesystemStorageBackend(path=path, memory_cache_mb=1 if cache else None)
+            b = tbackend()
+            fnlib.set_env(m, scratch, {"fc": (b, None), "fc2": (FilesystemStorageBackend(path=path + "-other"), None)})
+            tag = 9000 + ti
+            meta = {"chain(root first)": [[(k, d) for k, d, _ in own] for own in tchain], "cache": cache, "parent from": prov}
+            stats["typed_equal_overrides"] = stats.get("typed_equal_overrides", 0) + 1
+            try:
+                sp0, sp1 = spec_for(tchain, 0, [False, False], tag), spec_for(tchain, 1, [False, False], tag)
+                fnmod.pnode_fn(sp0)(sp0)
+                if prov == "disk":
+                    b = tbackend()
+                    fnlib.set_env(m, scratch, {"fc": (b, None), "fc2": (FilesystemStorageBackend(path=path + "-other"), None)})
+                elif prov == "fresh":
+                    fnmod.pnode_fn(sp0).forget(sp0)
+                first = fnmod.pnode_fn(sp1)(sp1)
+                reads = {"first-call value": first, "second call": fnmod.pnode_fn(sp1)(sp1)}
+                fnlib.set_env(m, scratch, {"fc": (tbackend(), None), "fc2": (FilesystemStorageBackend(path=path + "-other"), None)})
+                reads["fresh backend"] = fnmod.pnode_fn(sp1)(sp1)
+                for label, pp in reads.items():
+                    got = {k: (type(pp.get(k)).__name__, pp.get(k)) for k in pp.list_keys()}
+                    if got != want_typed or any(type(got[k][1]).__name__ != want_typed[k][0] for k in got):
+                        rep.violation("C17:own-key-does-not-win:equal-value-of-another-type", "child overrides a=1 with True, b=2 with 2.0, d=1.0 with 1 (parent from: %s); read through %s it holds %r" % (prov, label, got), meta)
+                        break
+            except Exception as e:
+                rep.violation("C17:typed-override-raised", "%s: %s" % (type(e).__name__, str(e)[:150]), meta)
+            first = reads = None
+            shutil.rmtree(path, ignore_errors=True)
+            shutil.rmtree(path + "-other", ignore_errors=True)
         try:
             res = C.run_coq_cases("c17", HEADER, terms, "pcase_now", shard=300, case_type="list (pdict * provenance) * list (string * Z) * list string")
         except RuntimeError as e:
